@@ -820,7 +820,12 @@ impl ProtocolState {
         }
 
         self.apply_ackable_completion(&operation);
-        self.apply_disconnect_completion(&operation)?;
+
+        // failing a user DISCONNECT that could not be sent because the connection is already gone
+        // must not turn connection-closed processing itself into an error
+        if self.state != ProtocolStateType::Disconnected {
+            self.apply_disconnect_completion(&operation)?;
+        }
 
         if operation.options.is_none() {
             info!("[{} ms] complete_operation_as_failure ({}) - internal {} operation {} completed", self.elapsed_time_ms, error, mqtt_packet_to_str(&operation.packet), id);
